@@ -9,7 +9,7 @@ From Scalibr Require Import Semantic.Semver Semantic.SemverProofs Semantic.Nuget
 From Scalibr Require Import Semantic.Cran Semantic.CranProofs Semantic.Rubygems Semantic.RubygemsProofs.
 From Scalibr Require Import Semantic.Debian Semantic.DebianProofs Semantic.Redhat Semantic.RedhatProofs.
 From Scalibr Require Import Semantic.Pypi Semantic.PypiProofs Semantic.PypiParse Semantic.PypiParseProofs Semantic.Packagist Semantic.PackagistProofs.
-From Scalibr Require Import Semantic.Alpine Semantic.AlpineProofs Semantic.Maven Semantic.MavenProofs Semantic.MavenParseProofs.
+From Scalibr Require Import Semantic.Alpine Semantic.AlpineProofs Semantic.AlpineParse Semantic.AlpineParseProofs Semantic.Maven Semantic.MavenProofs Semantic.MavenParseProofs.
 Import ListNotations.
 Open Scope string_scope.
 
@@ -476,7 +476,8 @@ Example pypi_letter_table_ordered :
   (hd 0%N (b "a") <? hd 0%N (b "b"))%N && (hd 0%N (b "b") <? hd 0%N (b "rc"))%N = true.
 Proof. vm_compute. repeat split; reflexivity. Qed.
 
-(* ================================================================== Packagist  (structure level) *)
+(* ================================================================== Packagist
+   front end (canonicalisation + split) modelled in Packagist.v; comparison on the component lists *)
 Definition pk (l : list string) : packagist := {| pk_original := []; pk_components := map b l |}.
 
 Theorem packagist_total : forall v w : packagist, exists c, cmp_packagist v w = Ok c.
@@ -511,6 +512,38 @@ Theorem packagist_eq_equiv_on_D : forall u v w : packagist,
 Proof. exact (proj2 cmp_packagist_laws_on_valid). Qed.
 Print Assumptions packagist_eq_equiv_on_D.
 
+(* ---- the same for all byte strings, through the modelled front end *)
+Theorem packagist_total_all_strings : forall a b : bytes, exists c, compare_str_packagist a b = Ok c.
+Proof. exact packagist_str_total. Qed.
+Print Assumptions packagist_total_all_strings.
+
+Theorem packagist_antisym_all_strings : forall a b : bytes, compare_str_packagist b a = oppO (compare_str_packagist a b).
+Proof. exact packagist_str_antisym. Qed.
+Print Assumptions packagist_antisym_all_strings.
+
+Theorem packagist_refl_all_strings : forall a : bytes, compare_str_packagist a a = Ok Eq.
+Proof. exact packagist_str_refl. Qed.
+Print Assumptions packagist_refl_all_strings.
+
+Theorem packagist_trans_on_D_strings : forall a b c : bytes,
+  valid_packagist_string a = true -> valid_packagist_string b = true -> valid_packagist_string c = true ->
+  leO (compare_str_packagist a b) = true -> leO (compare_str_packagist b c) = true -> leO (compare_str_packagist a c) = true.
+Proof. intros a b c Ha Hb Hc. exact (proj1 (packagist_str_laws_on_valid a b c Ha Hb Hc)). Qed.
+Print Assumptions packagist_trans_on_D_strings.
+
+Theorem packagist_eq_equiv_on_D_strings : forall a b c : bytes,
+  valid_packagist_string a = true -> valid_packagist_string b = true -> valid_packagist_string c = true ->
+  compare_str_packagist a b = Ok Eq -> compare_str_packagist a c = compare_str_packagist b c.
+Proof. intros a b c Ha Hb Hc. exact (proj2 (packagist_str_laws_on_valid a b c Ha Hb Hc)). Qed.
+Print Assumptions packagist_eq_equiv_on_D_strings.
+
+(* labelled TEST on strings: composer spellings and PHP's order of special forms *)
+Example packagist_strings_canonical :
+  ascending compare_str_packagist (map b ["1.0-dev"; "1.0-alpha1"; "1.0a2"; "1.0-beta1"; "1.0RC1"; "1.0"; "1.0.1"; "1.0-p1"; "1.1"; "1.10"]) = true
+  /\ all_equal compare_str_packagist (map b ["1.0-RC1"; "1.0RC1"; "1.0-rc1"; "v1.0_RC+1"; "1.0.rc.1"]) = true
+  /\ valid_packagist_string (b "1.99999999999999999999-beta2") = true /\ valid_packagist_string (b "1.#") = false.
+Proof. vm_compute. repeat split; reflexivity. Qed.
+
 (* labelled TEST: PHP version_compare order of special forms: dev < alpha = a < beta = b < RC = rc < # (number) < pl = p *)
 Example packagist_agrees_canonical :
   ascending_s cmp_packagist
@@ -529,7 +562,8 @@ Example packagist_table_order :
   [0; 1; 1; 2; 2; 3; 3; 4; 5; 5; 5; 0]%nat /\ hash_weight = 4%nat.
 Proof. vm_compute. split; reflexivity. Qed.
 
-(* ================================================================== Alpine  (structure level) *)
+(* ================================================================== Alpine
+   front end (the five regex-driven steps of parseAlpineVersion) modelled in AlpineParse.v *)
 Definition anc_of (i : Z) (s : string) : anc :=
   {| an_original := b s; an_value := Some (Z.of_N (digits_val (b s) 0)); an_index := i |}.
 Fixpoint ancs (i : Z) (l : list string) : list anc :=
@@ -576,6 +610,40 @@ Theorem alpine_eq_equiv_on_D : forall u v w : alpine,
   cmp_alpine u v = Ok Eq -> cmp_alpine u w = cmp_alpine v w.
 Proof. exact (proj2 cmp_alpine_laws_on_valid). Qed.
 Print Assumptions alpine_eq_equiv_on_D.
+
+(* ---- all byte strings, through the modelled front end *)
+Theorem alpine_total_all_strings : forall a b : bytes, compare_str_alpine a b <> Panic.
+Proof. exact alpine_str_total. Qed.
+Print Assumptions alpine_total_all_strings.
+
+Theorem alpine_antisym_all_strings : forall a b : bytes, compare_str_alpine b a = oppO (compare_str_alpine a b).
+Proof. exact alpine_str_antisym. Qed.
+Print Assumptions alpine_antisym_all_strings.
+
+Theorem alpine_refl_all_strings : forall a : bytes, compare_str_alpine a a = Ok Eq \/ compare_str_alpine a a = Err.
+Proof. exact alpine_str_refl. Qed.
+Print Assumptions alpine_refl_all_strings.
+
+Theorem alpine_trans_on_D_strings : forall a b c : bytes,
+  valid_alpine_string a = true -> valid_alpine_string b = true -> valid_alpine_string c = true ->
+  leO (compare_str_alpine a b) = true -> leO (compare_str_alpine b c) = true -> leO (compare_str_alpine a c) = true.
+Proof. intros a b c Ha Hb Hc. exact (proj1 (alpine_str_laws_on_D a b c Ha Hb Hc)). Qed.
+Print Assumptions alpine_trans_on_D_strings.
+
+Theorem alpine_eq_equiv_on_D_strings : forall a b c : bytes,
+  valid_alpine_string a = true -> valid_alpine_string b = true -> valid_alpine_string c = true ->
+  compare_str_alpine a b = Ok Eq -> compare_str_alpine a c = compare_str_alpine b c.
+Proof. intros a b c Ha Hb Hc. exact (proj2 (alpine_str_laws_on_D a b c Ha Hb Hc)). Qed.
+Print Assumptions alpine_eq_equiv_on_D_strings.
+
+(* labelled TEST on strings (apk-tools), incl. the refuted equality chain and a rejected version *)
+Example alpine_strings_canonical :
+  ascending compare_str_alpine
+    (map b ["1.2_alpha"; "1.2_beta1"; "1.2_pre"; "1.2_rc1"; "1.2"; "1.2-r1"; "1.2_cvs"; "1.2_svn"; "1.2_git"; "1.2_hg"; "1.2_p"; "1.2_p1"; "1.2a"; "1.2.1"; "1.10"]) = true
+  /\ compare_str_alpine (b "1.0") (b "1") = Ok Eq /\ compare_str_alpine (b "1") (b "1.00") = Ok Eq /\ compare_str_alpine (b "1.0") (b "1.00") = Ok Lt
+  /\ valid_alpine_string (b "1.0.01_rc1-r2") = true /\ valid_alpine_string (b "1.00") = false
+  /\ compare_str_alpine (b "1.") (b "1") = Err.
+Proof. vm_compute. repeat split; reflexivity. Qed.
 
 (* labelled TEST: apk-tools suffix order alpha < beta < pre < rc < (none) < cvs < svn < git < hg < p,
    letters, -r build.  The second conjunct is the regression of the fixed finding
